@@ -8,7 +8,7 @@
 (* initial states are the replay cases for the real server (binding B2).                    *)
 EXTENDS Dir, MC_C07_data, TLC
 
-CONSTANTS Scopes,       \* set of [sel, list, maxn, pairn]: which directories, sizes, pairs up to which size
+CONSTANTS Scopes,       \* set of [sel, list, maxn, pairn, pairrots, sidecars]: directories, sizes, pairs up to which size
           OrderModes,   \* subset of {"sorted", "reversed"}: the OS enumeration orders driven
           Protos,       \* protocol forms the listing is requested through
           DotFaults     \* include dot-named special files (UMN link-processing path)
@@ -16,40 +16,57 @@ CONSTANTS Scopes,       \* set of [sel, list, maxn, pairn]: which directories, s
 VARIABLES ord, proto
 mcvars == <<dvars, ord, proto>>
 
-K(n, kind, fault) == [name |-> n, kind |-> kind, fault |-> fault, capx |-> FALSE, blocks |-> <<>>]
+K(n, kind, fault) == [name |-> n, kind |-> kind, fault |-> fault, errno |-> "", capx |-> FALSE, blocks |-> <<>>]
+KE(n, kind, fault, en) == [K(n, kind, fault) EXCEPT !.errno = en]
 
 Pool   == <<"b", "h", "n", "t">>                 \* base names: position i sorts i-th
 Shapes == <<"txt", "dir", "html", "bs", "xdot">>
 Rotations == 0..4
 ShapeAt(i, r) == Shapes[((i + r) % 5) + 1]
+\* name alphabet: every child name of a case (healthy AND unservable) carries the decoration of the case's rotation:
+\* format metacharacters of %-formatting and str.format, so that a name is never used as a format string unnoticed
+Decs == <<"", "%", "%s", "{0}", "{}">>
+Base(i, r) == Pool[i] \o Decs[r + 1]
 HealthyKid(i, r) ==
-    LET s == ShapeAt(i, r)  b == Pool[i] IN
+    LET s == ShapeAt(i, r)  b == Base(i, r) IN
     CASE s = "txt"  -> K(b \o ".txt", "file", "none")
       [] s = "dir"  -> K(b, "dir", "none")
       [] s = "html" -> K(b \o ".html", "file", "none")
       [] s = "bs"   -> K(b \o "\\x", "file", "none")          \* one backslash: accepted by the filter
       [] s = "xdot" -> K(b \o ".", "dir", "none")             \* directory `x.` seen from its parent
 
-Faulty(i) ==
-    LET b == Pool[i] IN
-    { K(b, "dangling", "none"), K(b, "fifo", "none"), K(b, "socket", "none"),
+\* fault kinds x errno x which probe is hit: the child's own stat (broken links: ENOENT / ELOOP / ENOTDIR for real;
+\* injected EACCES / EIO / ENAMETOOLONG), the open by a sniffing handler, the SECONDARY probes of paths under a
+\* directory child (child/gophermap, child/new, child/cur: esub)
+Faulty(i, r) ==
+    LET b == Base(i, r) IN
+    { K(b, "dangling", "none"), K(b, "loop", "none"), K(b, "thrufile", "none"), K(b, "fifo", "none"), K(b, "socket", "none"),
       K(b \o ".txt", "file", "vanish1"), K(b, "dir", "vanish1"), K(b \o ".html", "file", "vanish1"),
       K(b \o ".txt", "file", "vanish2"), K(b \o ".html", "file", "vanish2"),
-      K(b \o ".txt", "file", "estat"), K(b, "dir", "estat"),
-      K(b \o ".txt", "file", "eopen"), K(b \o ".html", "file", "eopen"),
+      KE(b \o ".txt", "file", "estat", "EACCES"), KE(b, "dir", "estat", "EACCES"),
+      KE(b \o ".txt", "file", "estat", "EIO"), KE(b, "dir", "estat", "ENAMETOOLONG"),
+      KE(b \o ".txt", "file", "eopen", "EACCES"), KE(b \o ".html", "file", "eopen", "EACCES"),
+      KE(b, "dir", "esub", "EACCES"), KE(b, "dir", "esub", "EIO"),
       K(b \o "..x", "file", "none"), K(b \o "..x", "dir", "none"),
       K(b \o ".\\x", "file", "none"), K(b \o "\\\\x", "file", "none") }
-\* dot-named special files: UMN's link-processing path (singles only)
-DotFaulty(i) ==
-    LET b == Pool[i] IN
-    IF DotFaults THEN { K("." \o b, "dangling", "none"), K("." \o b, "socket", "none"),
-                        K("." \o b, "fifo", "none"), K("." \o b, "file", "vanish1") }
+\* dot-named faulty entries: UMN's link-file probe (vfs.isfile) and read (singles only)
+DotFaulty(i, r) ==
+    LET b == Base(i, r) IN
+    IF DotFaults THEN { K("." \o b, "dangling", "none"), K("." \o b, "loop", "none"), K("." \o b, "thrufile", "none"),
+                        K("." \o b, "socket", "none"), K("." \o b, "fifo", "none"),
+                        K("." \o b, "file", "vanish1"), KE("." \o b, "file", "estat", "EACCES") }
     ELSE {}
 
-Singles(n) == UNION {{ {[i |-> a, k |-> ka]} : ka \in Faulty(a) \cup DotFaulty(a)} : a \in 1..n}
-Pairs(n)   == UNION {UNION {{ {[i |-> a, k |-> ka], [i |-> b, k |-> kb]} : ka \in Faulty(a), kb \in Faulty(b)}
-                            : b \in (a + 1)..n} : a \in 1..n}
-FaultSets(n, pairn) == {{}} \cup Singles(n) \cup (IF n <= pairn THEN Pairs(n) ELSE {})
+Singles(n, r) == UNION {{ {[i |-> a, k |-> ka]} : ka \in Faulty(a, r) \cup DotFaulty(a, r)} : a \in 1..n}
+Pairs(n, r)   == UNION {UNION {{ {[i |-> a, k |-> ka], [i |-> b, k |-> kb]} : ka \in Faulty(a, r), kb \in Faulty(b, r)}
+                               : b \in (a + 1)..n} : a \in 1..n}
+FaultSets(n, r, s) == {{}} \cup Singles(n, r) \cup (IF n <= s.pairn /\ r \in s.pairrots THEN Pairs(n, r) ELSE {})
+
+\* side-car-shaped unservable children: a child whose name is <a healthy sibling's name> + <side-car extension> and that
+\* is NOT a regular file (populating the sibling's entry looks at exactly that path)
+SidecarKinds == {"fifo", "dangling", "loop", "socket", "dir"}
+SidecarCases == {{K("b.txt", "file", "none"), K("b.txt" \o DataEaExts[e], kd, "none")} : e \in DOMAIN DataEaExts, kd \in SidecarKinds}
+                \cup {{K("b.txt", "file", "none"), K("h", "dirabs", "none")}}
 
 KidsFor(n, r, F) ==
     {IF \E x \in F : x.i = q THEN (CHOOSE x \in F : x.i = q).k ELSE HealthyKid(q, r) : q \in 1..n}
@@ -69,10 +86,13 @@ OrderFor(dd, m) == IF m = "reversed" THEN Reverse(SortedNames(dd)) ELSE SortedNa
 
 \* singles (and the fault-free controls) are driven under every enumeration order of OrderModes,
 \* pairs under the sorted one
-Init == \E s \in Scopes : \E n \in 1..s.maxn : \E r \in Rotations : \E F \in FaultSets(n, s.pairn) :
+Init == \/ \E s \in Scopes : \E n \in 1..s.maxn : \E r \in Rotations : \E F \in FaultSets(n, r, s) :
             LET dd == MkDir(s.sel, s.list, KidsFor(n, r, F)) IN
             /\ ValidCase(dd) /\ DirInit(dd)
             /\ ord \in (IF Cardinality(F) >= 2 THEN {"sorted"} ELSE OrderModes)
+            /\ proto = "-"
+        \/ \E s \in {x \in Scopes : x.sidecars} : \E ks \in SidecarCases :
+            /\ DirInit(MkDir(s.sel, s.list, ks)) /\ ord = "sorted"
             /\ proto = "-"
 
 Respond(pr) == pc = "done" /\ proto = "-" /\ proto' = pr /\ UNCHANGED <<dvars, ord>>
@@ -85,13 +105,14 @@ Spec == Init /\ [][Next]_mcvars
 \* generation run: the initial states only (each one is a replay case)
 GenSpec == Init /\ [][FALSE]_mcvars
 
-\* pairn = 2: directories that consist ONLY of unservable children (one, and two of them) are part of the quick tier
-ScopesQuick    == {[sel |-> "/d", list |-> "default", maxn |-> 3, pairn |-> 2],
-                   [sel |-> "/x.", list |-> "default", maxn |-> 1, pairn |-> 0]}
-ScopesThorough == {[sel |-> "/d", list |-> "default", maxn |-> 4, pairn |-> 4],
-                   [sel |-> "/d", list |-> "dir", maxn |-> 3, pairn |-> 3],
-                   [sel |-> "/", list |-> "default", maxn |-> 3, pairn |-> 0],
-                   [sel |-> "/x.", list |-> "default", maxn |-> 2, pairn |-> 0]}
+\* pairn = 2: directories that consist ONLY of unservable children (one, and two of them) are part of the quick tier;
+\* pairrots: the rotations (= name decorations) under which pairs are driven; sidecars: the side-car-shaped family
+ScopesQuick    == {[sel |-> "/d", list |-> "default", maxn |-> 3, pairn |-> 2, pairrots |-> {1}, sidecars |-> TRUE],
+                   [sel |-> "/x.", list |-> "default", maxn |-> 1, pairn |-> 0, pairrots |-> {}, sidecars |-> FALSE]}
+ScopesThorough == {[sel |-> "/d", list |-> "default", maxn |-> 4, pairn |-> 4, pairrots |-> {0, 1, 3}, sidecars |-> TRUE],
+                   [sel |-> "/d", list |-> "dir", maxn |-> 3, pairn |-> 3, pairrots |-> {0, 2}, sidecars |-> TRUE],
+                   [sel |-> "/", list |-> "default", maxn |-> 3, pairn |-> 0, pairrots |-> {}, sidecars |-> TRUE],
+                   [sel |-> "/x.", list |-> "default", maxn |-> 2, pairn |-> 0, pairrots |-> {}, sidecars |-> FALSE]}
 
 WellFormed == WellFormedDir(d)
 \* reachability witnesses (each must be VIOLATED by TLC: vacuity guard)
